@@ -2805,6 +2805,15 @@ impl WasmGenerator {
                                 memory_index: 0,
                             }));
                         }
+                        mir::Value::Register(reg_idx)
+                            if self.getelement_registers.get(reg_idx) == Some(&ValType::F64) =>
+                        {
+                            // A variable bound by destructuring (`let (a, b) = t`) is the address of
+                            // a number inside the tuple: like a single-word alloc cell it is shared
+                            // by pointer and dereferenced at GetUpValue / SetUpValue time.
+                            is_indirect[i] = true;
+                            self.emit_value_load(upindex, func);
+                        }
                         _ => {
                             // Direct value (non-alloc register, argument, etc.)
                             let val_type = self.infer_value_type(upindex);
